@@ -15,7 +15,10 @@ Driver for E7 (C11).  Two independent parts:
   an accepted DELETE, a server-side close, a failed initialize, or `timeout` ms of idleness.
 
 Harness operations (see go/harness/mcp/zz_verif_sessions_test.go):
-`reset <stateful|stateless> <timeout ms>` · `post <ref> <user> <init|badinit|ping|notif|slow>` ·
+`reset <stateful|stateless> <timeout ms> [es|nes]` (`es`: the handler has an `EventStore`, a fault-injecting
+wrapper of the in-memory store) · `fault <flags>` (from now on the event-store methods named by the flags
+fail: `c` SessionClosed, `o` Open of the standalone stream = `Transport.Connect`, `O` Open of a request's
+stream, `a` Append, `r` After; `-` none) · `post <ref> <user> <init|badinit|ping|notif|slow>` ·
 `postx <user> <kind>` (a creating POST during which the server closes the new session between `Connect`
 and the publication in `h.sessions` — F20) ·
 `release <slot>` · `abandon <slot>` (the client of that POST goes away, its handler keeps running) ·
@@ -68,6 +71,10 @@ def parseKind (k : String) : Option Kind :=
 
 def sname (i : Nat) : String := s!"s{i + 1}"
 
+def parseFaults (f : String) : Faults :=
+  { closed := f.contains 'c', connOpen := f.contains 'o', reqOpen := f.contains 'O',
+    append := f.contains 'a', after := f.contains 'r' }
+
 def showOwner : User → String
   | none => "-"
   | some n => s!"u{n}"
@@ -77,7 +84,6 @@ def showOwner : User → String
 inductive PKind where
   | slow (sid : Option Nat) (slot : Nat)
   | run (sid : Nat) (slot : Nat)   -- handler still running after its POST was abandoned by the client
-  | hang (sid : Nat)       -- a call POSTed to a closing session: refused by the connection, the POST waits for the session to go away
   | del (sid : Nat)
   | cls (sid : Nat)
 
@@ -99,6 +105,12 @@ def isLive (s : State) (i : Nat) : Bool :=
   | some e => !e.removed
   | none => false
 
+/-- What `Close()` of that session returns: closing the connection reported an error. -/
+def closeErrOf (s : State) (i : Nat) : Bool :=
+  match findSess i s.tbl with
+  | some e => e.closeErr
+  | none => false
+
 def showMap (s : State) : String :=
   joinOr ((s.tbl.filter (fun e => e.inMap)).map fun e =>
     s!"{sname e.id}/{showOwner e.owner}/r{e.refs}/t{b2n (e.timer != .nil)}/c{b2n e.closing}")
@@ -113,9 +125,8 @@ def completions (s : State) (pend : List Pend) : List String × List Pend × Sta
     let (done, keep, st) := acc
     match p.kind with
     | .del i => if isLive st i then (done, keep ++ [p], st) else (done ++ [s!"{p.tag}={stDeleted}"], keep, st)
-    | .cls i => if isLive st i then (done, keep ++ [p], st) else (done ++ [s!"{p.tag}=1"], keep, st)
-    | .hang i => if isLive st i then (done, keep ++ [p], st)
-                 else (done ++ [s!"{p.tag}=200"], keep, doL st (.postEnd (some i) false))
+    | .cls i => if isLive st i then (done, keep ++ [p], st)
+                else (done ++ [s!"{p.tag}={if closeErrOf st i then 2 else 1}"], keep, st)
     | .slow _ _ => (done, keep ++ [p], st)
     | .run _ _ => (done, keep ++ [p], st)) ([], [], s)
 
@@ -140,6 +151,7 @@ structure DState where
   mpend : List (String × String) := []    -- async tag ↦ session name
   zombies : List String := []             -- F20: sessions closed during creation that were published anyway
   mrun : List (Nat × String) := []        -- slot of an abandoned POST whose handler still runs ↦ session name
+  mfaults : String := "-"                 -- the flags of the last `fault` op (the environment's script)
 
 structure MOut where
   st : State
@@ -169,12 +181,17 @@ def modelOp (d : DState) (toks : List String) : Option MOut :=
     let first : Option (State × Resp) :=
       if sid.isNone && !st.cfg.stateless then
         match step st (.postBegin none u k) with
-        | some (st0, _) => step st0 (.publish st.next)
-        | none => none
+        | some (st0, .tau) => step st0 (.publish st.next)
+        | r => r      -- `Connect` refused by the event store: answered at once, no session
       else step st (.postBegin sid u k)
     match first with
     | none => none
     | some (st1, .reject c) => some { base with st := st1, head := s!"{c} -" }
+    | some (st1, .storeRefused c) =>
+      -- the session layer let the POST through, the transport could not open the stream for the
+      -- answer: nothing reaches a handler, the POST ends (for a creating POST: failed initialize)
+      if st.cfg.stateless then some { base with st := doL st1 (.postEnd none false), head := s!"{c} -" }
+      else some { base with st := doL st1 (.postEnd (some (sid.getD st.next)) sid.isNone), head := s!"{c} -" }
     | some (st1, .forward hdr deliver) =>
       let hdrS := match hdr with | some i => sname i | none => "-"
       if st.cfg.stateless then
@@ -183,9 +200,11 @@ def modelOp (d : DState) (toks : List String) : Option MOut :=
                            pend := d.pend ++ [⟨tag, .slow none nslow⟩] }
         else
           let st2 := doL st1 (.postEnd none false)
+          -- (a notification is handled by the temporary session before the POST is acknowledged)
           let log := match kind with
             | "init" => [s!"e/{user}/initialize"]
             | "ping" => [s!"e/{user}/ping"]
+            | "notif" => [s!"e/{user}/notifications/initialized"]
             | _ => []
           some { base with st := st2, head := (if kind == "notif" then "202 -" else "200 -"), log := log }
       else
@@ -193,9 +212,7 @@ def modelOp (d : DState) (toks : List String) : Option MOut :=
         let creator := sid.isNone
         let wasInit := match findSess i st.tbl with | some e => e.initialized | none => false
         let nm := sname i
-        if !deliver && kind != "notif" then
-          some { base with st := st1, head := "pending -", pend := d.pend ++ [⟨tag, .hang i⟩] }
-        else if slow && deliver && wasInit then
+        if slow && deliver && wasInit then
           some { base with st := st1, head := "pending -", log := [s!"{nm}/{user}/tools/call"],
                            pend := d.pend ++ [⟨tag, .slow (some i) nslow⟩] }
         else
@@ -225,12 +242,17 @@ def modelOp (d : DState) (toks : List String) : Option MOut :=
     if st.cfg.stateless then none
     else
       let i := st.next
-      let st1 := doL (doL (doL st (.postBegin none u k)) (.serverClose i)) (.closeDone i)
-      match step st1 (.publish i) with
-      | some (st2, .forward hdr _) =>
-        let hdrS := match hdr with | some j => sname j | none => "-"
-        some { base with st := doL st2 (.postEnd (some i) true), head := s!"200 {hdrS}" }
-      | _ => none
+      match step st (.postBegin none u k) with
+      | some (st0, .reject c) => some { base with st := st0, head := s!"{c} -" }
+      | some (st0, _) =>
+        let st1 := doL (doL st0 (.serverClose i)) (.closeDone i)
+        match step st1 (.publish i) with
+        | some (st2, .forward hdr _) =>
+          let hdrS := match hdr with | some j => sname j | none => "-"
+          some { base with st := doL st2 (.postEnd (some i) true), head := s!"200 {hdrS}" }
+        | some (st2, .storeRefused c) => some { base with st := doL st2 (.postEnd (some i) true), head := s!"{c} -" }
+        | _ => none
+      | none => none
   | ["release", ks] => do
     let k ← ks.toNat?
     if k = 0 || k > d.nslow || d.released.contains k then some { base with head := "noop -" }
@@ -241,14 +263,10 @@ def modelOp (d : DState) (toks : List String) : Option MOut :=
         let rest := d.pend.filter (fun q => q.tag != p.tag)
         match p.kind with
         | .slow (some i) _ =>
-          let closing := match findSess i st.tbl with | some e => e.closing | none => false
-          if closing then
-            -- the connection refuses the answer of a handler that finishes after Close began: the POST
-            -- stays open until the session is gone
-            some { base with st := doL st (.handlerDone i false), pend := rest ++ [⟨p.tag, .hang i⟩] }
-          else
-            some { base with st := doL (doL st (.handlerDone i false)) (.postEnd (some i) false),
-                             done := [s!"{p.tag}=200"], pend := rest }
+          -- (also after `Close` has begun: the answer of a handler that was admitted before the close
+          -- still passes the connection's write gate — F26 — so the POST is answered and ends)
+          some { base with st := doL (doL st (.handlerDone i false)) (.postEnd (some i) false),
+                           done := [s!"{p.tag}=200"], pend := rest }
         | .slow none _ => some { base with st := doL st (.postEnd none false), done := [s!"{p.tag}=200"], pend := rest }
         | .run i _ => some { base with st := doL st (.handlerDone i false), pend := rest }
         | _ => some base
@@ -268,7 +286,6 @@ def modelOp (d : DState) (toks : List String) : Option MOut :=
       | .slow none _ =>
         -- stateless: the POST now waits in `defer session.Close()` for its handler: nothing observable
         some { base with head := "ok -" }
-      | .hang i => some { base with st := doL st (.postEnd (some i) false), head := "ok -", done := [s!"{tag}=200"], pend := rest }
       | _ => some { base with head := "noop -" }
   | ["get", ref, user] => do
     let sid ← parseRef st.next ref
@@ -277,6 +294,7 @@ def modelOp (d : DState) (toks : List String) : Option MOut :=
     match step st (.get sid u) with
     | some (st1, .reject c) => some { base with st := st1, head := s!"{c} -" }
     | some (st1, .stream) => some { base with st := st1, head := "200 - hang" }
+    | some (st1, .storeRefused c) => some { base with st := st1, head := s!"{c} -" }
     | _ => none
   | ["delete", ref, user] => do
     let sid ← parseRef st.next ref
@@ -300,6 +318,9 @@ def modelOp (d : DState) (toks : List String) : Option MOut :=
   | ["tick", ms] => do
     let n ← ms.toNat?
     some { base with st := doL st (.tick n), head := "ok -" }
+  | ["fault", flags] =>
+    if st.cfg.eventStore then some { base with st := doL st (.faults (parseFaults flags)), head := "ok -" }
+    else some { base with head := "noop -" }
   | ["close", ref] => do
     let sid ← parseRef st.next ref
     match sid with
@@ -308,7 +329,7 @@ def modelOp (d : DState) (toks : List String) : Option MOut :=
         let st2 := settle (doL st (.serverClose i))
         if isLive st2 i then
           some { base with st := st2, nasync := d.nasync + 1, head := "pending -", pend := d.pend ++ [⟨s!"c{d.nasync + 1}", .cls i⟩] }
-        else some { base with st := st2, nasync := d.nasync + 1, head := "ok -" }
+        else some { base with st := st2, nasync := d.nasync + 1, head := (if closeErrOf st2 i then "err -" else "ok -") }
       else some { base with head := "noop -" }
     | none => some { base with head := "noop -" }
   | _ => none
@@ -353,9 +374,16 @@ structure MonRes where
   mpend : List (String × String)
   zombies : List String
   mrun : List (Nat × String)
+  mfaults : String := "-"
   viol : Option String := none
 
-def f20 : String := "C11: F20 session closed by the server during its creating POST is kept in the handler's table"
+/-- A session that the server closed between `Connect` and its publication sits in the handler's table.
+Classified as the (repaired) defect F20 only when the source lacks F20's publication check; with the
+check in place it is a plain violation of the clause (whatever made the closed session stay). -/
+def f20 : String :=
+  if Generated.Sessions.publishChecksClosed then
+    "C11:dead_after_removal: session closed by the server during its creating POST is kept in the handler's table"
+  else "C11: F20 session closed by the server during its creating POST is kept in the handler's table"
 
 def firstViol (a b : Option String) : Option String := match a with | some x => some x | none => b
 
@@ -380,6 +408,12 @@ def monitorOp (cfg : Cfg) (d : DState) (toks : List String) (racy : Bool) (o : O
   let st := o.status
   let target := monFind mon0 ref
   let accepted2xx := st == "200" || st == "202" || st == "204" || st == "pending"
+  -- the environment's script: error statuses that the transport may answer with *after* the session
+  -- layer has let the request through, because the configured event store fails right now
+  let fl := if cfg.eventStore then d.mfaults else "-"
+  let openRefusal := op == "post" && kind != "notif" && fl.contains 'O' && st == "500"
+  let connRefusal := op == "post" && fl.contains 'o' && st == "500"
+  let replayRefusal := op == "get" && fl.contains 'r' && st == "400"
   -- 1. expected answer of a request
   let v1 : Option String :=
     if !isReq then none
@@ -387,12 +421,12 @@ def monitorOp (cfg : Cfg) (d : DState) (toks : List String) (racy : Bool) (o : O
       if op != "post" then
         (if st == "405" then none else some s!"C11:stateless_no_ids_405: {op} on a stateless endpoint answered {st}")
       else if st == "403" || st == "404" then some s!"C11:stateless_no_ids_405: stateless endpoint honoured a session id ({st})"
-      else if !accepted2xx then some s!"C11:stateless_no_ids_405: stateless POST answered {st}"
+      else if !(accepted2xx || openRefusal || connRefusal) then some s!"C11:stateless_no_ids_405: stateless POST answered {st}"
       else none
     else if op == "other" then
       (if st == "405" then none else some s!"C11:other method answered {st}")
     else if ref == "-" then
-      if op == "post" then (if accepted2xx then none else some s!"C11:id_minted_only_on_creating_post: POST without a session id answered {st}")
+      if op == "post" then (if accepted2xx || openRefusal || connRefusal then none else some s!"C11:id_minted_only_on_creating_post: POST without a session id answered {st}")
       else (if st == "400" then none else some s!"C11:{op} without a session id answered {st}")
     else match target with
       | none => if st == "404" then none else some s!"C11:id_addresses_one_session: unknown session id honoured ({op} answered {st})"
@@ -409,7 +443,7 @@ def monitorOp (cfg : Cfg) (d : DState) (toks : List String) (racy : Bool) (o : O
         else if st == "404" then
           (if e.posts > 0 then some "C11:timer_never_fires_during_post: session gone while a POST is in progress"
            else some s!"C11:dead_after_removal: live session not honoured ({op} answered 404)")
-        else if !accepted2xx then some s!"C11:{op} to a live session answered {st}"
+        else if !(accepted2xx || openRefusal || replayRefusal) then some s!"C11:{op} to a live session answered {st}"
         else none
   -- 2. a rejected request reaches no handler; an accepted one reaches only its own session, as its own user
   let v2 : Option String :=
@@ -445,7 +479,7 @@ def monitorOp (cfg : Cfg) (d : DState) (toks : List String) (racy : Bool) (o : O
     if cfg.stateless then (mon0, d.mpend)
     else match op with
       | "post" =>
-        if ref != "-" && entitledLive && accepted2xx then
+        if ref != "-" && entitledLive && (accepted2xx || openRefusal) then
           if st == "pending" then (monUpd mon0 ref (fun e => { e with posts := e.posts + 1 }), d.mpend ++ [(tagOf, ref)])
           else (monUpd mon0 ref (fun e => if e.posts == 0 then { e with idleSince := now } else e), d.mpend)
         else (mon0, d.mpend)
@@ -454,7 +488,8 @@ def monitorOp (cfg : Cfg) (d : DState) (toks : List String) (racy : Bool) (o : O
         else if entitledLive && st == "pending" then (monUpd mon0 ref (fun e => { e with status := 1 }), d.mpend ++ [(tagOf, ref)])
         else (mon0, d.mpend)
       | "close" =>
-        if st == "ok" then (monUpd mon0 ref (fun e => { e with status := 2 }), d.mpend)
+        -- (`err`: Close reported the error of closing the connection; the session has ended all the same)
+        if st == "ok" || st == "err" then (monUpd mon0 ref (fun e => { e with status := 2 }), d.mpend)
         else if st == "pending" then (monUpd mon0 ref (fun e => if e.status == 0 then { e with status := 1 } else e), d.mpend ++ [(tagOf, ref)])
         else (mon0, d.mpend)
       | _ => (mon0, d.mpend)
@@ -503,6 +538,7 @@ def monitorOp (cfg : Cfg) (d : DState) (toks : List String) (racy : Bool) (o : O
       let v := if racy then some f20
         else if op == "post" && ref == "-" && !cfg.stateless then
           (if kind != "init" then some "C11:dead_after_removal: session kept after a failed initialize"
+           else if !accepted2xx then some s!"C11:dead_after_removal: session kept although its creating POST was refused ({st})"
            else if ow != ownerOfUser user then some "C11:owner_binding: session bound to a user other than its creator"
            else if o.hdr != nm then some "C11:id_minted_only_on_creating_post: created session is not the one named in the response"
            else none)
@@ -539,9 +575,12 @@ def monitorOp (cfg : Cfg) (d : DState) (toks : List String) (racy : Bool) (o : O
   let zombies := d.zombies ++ (if racy then names.filter (fun n => (monFind mon2 n).isNone) else [])
   let viol := firstViol v1 (firstViol v2 (firstViol v3 (firstViol v5a (firstViol v5b (firstViol v5c (firstViol v5d v5e))))))
   let viol := if names.any zombies.contains then
-      viol.map (fun c => if c.startsWith "C11: F20" then c else s!"{f20}; then {c}")
+      viol.map (fun c => if c.startsWith f20 then c else s!"{f20}; then {c}")
     else viol
-  { mon := mon5, mnow := now, mpend := mpend2, zombies := zombies, mrun := mrun1, viol := viol }
+  let mfaults := match toks with
+    | ["fault", f] => if st == "ok" then f else d.mfaults
+    | _ => d.mfaults
+  { mon := mon5, mnow := now, mpend := mpend2, zombies := zombies, mrun := mrun1, mfaults := mfaults, viol := viol }
 
 /-! ## the engine -/
 
@@ -549,9 +588,10 @@ def engine : Engine DState where
   init := {}
   step d toks impl :=
     match toks with
-    | ["reset", mode, ms] =>
+    | "reset" :: mode :: ms :: rest =>
       let cfg : Cfg := { stateless := mode == "stateless", timeout := ms.toNat?.getD 0,
-                         publishChecks := Generated.Sessions.publishChecksClosed }
+                         publishChecks := Generated.Sessions.publishChecksClosed,
+                         eventStore := rest == ["es"] }
       ({ st := init cfg }, { model := "ok" })
     | ["reset"] => ({}, { model := "ok" })
     | ["end"] =>
@@ -569,14 +609,14 @@ def engine : Engine DState where
         | _ => (toks, false)
       let mr := monitorOp d.st.cfg d mtoks racy o
       match modelOp d toks with
-      | none => ({ d with mon := mr.mon, mnow := mr.mnow, mpend := mr.mpend, zombies := mr.zombies, mrun := mr.mrun },
+      | none => ({ d with mon := mr.mon, mnow := mr.mnow, mpend := mr.mpend, zombies := mr.zombies, mrun := mr.mrun, mfaults := mr.mfaults },
                  { model := "bad-op", violated := mr.viol })
       | some m =>
         let st := settle m.st
         let (doneC, pend, st) := completions st m.pend
         let model := s!"{m.head} done:{joinOr (sortStrs (m.done ++ doneC))} map:{showMap st} srv:{showSrv st} log:{joinOr (sortStrs m.log)}"
         ({ st := st, nslow := m.nslow, nasync := m.nasync, released := m.released, pend := pend,
-           mon := mr.mon, mnow := mr.mnow, mpend := mr.mpend, zombies := mr.zombies, mrun := mr.mrun },
+           mon := mr.mon, mnow := mr.mnow, mpend := mr.mpend, zombies := mr.zombies, mrun := mr.mrun, mfaults := mr.mfaults },
          { model := model, violated := mr.viol })
 
 end Sessions
